@@ -24,7 +24,9 @@ type c05Params struct {
 	Blocking string      `json:"blocking"` // none gated forever
 	At       int         `json:"at"`       // evaluation m / body j / ms
 	Script   string      `json:"script"`   // "" | late-tick | slow-output | tick-at-finish | stop-path
-	Desc     string      `json:"desc"`
+	// SlowMS: how long the sink of the slow-output script takes per progress report (default 600)
+	SlowMS int    `json:"slow_ms,omitempty"`
+	Desc   string `json:"desc"`
 	// ReleaseMS > 0 (ending duration, blocking gated): the held bodies are released this long after max-duration
 	ReleaseMS int `json:"release_ms,omitempty"`
 	// BoundMS > 0 (ending limit): Do must return within this long after the N-th body started
@@ -352,7 +354,11 @@ func init() {
 					}
 					p.Spec.IgnoreDropped = true
 					p.Spec.Interactive = s == "slow-output" && i%2 == 0
-					p.Desc = fmt.Sprintf("script=%s mode=%s interactive=%v", s, mode, p.Spec.Interactive)
+					if s == "slow-output" && i%2 == 1 {
+						// a sink that stalls for longer than any grace period one might think of
+						p.SlowMS = 1600
+					}
+					p.Desc = fmt.Sprintf("script=%s mode=%s interactive=%v slow=%dms", s, mode, p.Spec.Interactive, p.SlowMS)
 					cse := core.MkCase("C05", "script", i*4+j, seed, p)
 					cse.Race = i%2 == 0
 					cse.Solo = true
@@ -879,7 +885,7 @@ func c05Script(c *core.Case, o *core.Outcome) {
 		l.OutDelay = func(text string) {
 			if strings.Contains(text, "progress") || strings.Contains(text, "✔") {
 				slow.Add(1)
-				time.Sleep(600 * time.Millisecond)
+				time.Sleep(time.Duration(max(p.SlowMS, 600)) * time.Millisecond)
 			}
 		}
 		done := make(chan *engine.Run, 1)
@@ -891,7 +897,7 @@ func c05Script(c *core.Case, o *core.Outcome) {
 			o.Inconc("harness: %v", r.NewErr)
 			return
 		}
-		time.Sleep(800 * time.Millisecond)
+		time.Sleep(time.Duration(max(p.SlowMS, 600)+200) * time.Millisecond)
 		if slow.Load() == 0 {
 			o.Inconc("no progress line was produced")
 			return
